@@ -546,6 +546,15 @@ def check_C16(tier, seed):
             ins = ws_inputs(e.g, L if len(e.g.ts) <= 3 else L - 1, [ord('?'), 32], 250 if tier == 'quick' else 2000)
         for (v, st) in ((1, 0), (0, 0), (1, 1), (0, 1), (1, 2), (0, 2)):
             pipeline.add_jobs(e, ins, verbose=bool(v), stream=st, tag='v%ds%d_' % (v, st))
+        # the other whitespace options: blanks and newlines between terms, each option set under all six verbosity/stream variants
+        if hasattr(e, 'lexterms'):
+            oins = [list(b'if 1\n+ 2'), list(b'1\n2'), list(b' if\n'), list(b'\n')]
+        else:
+            oins = ws_inputs(e.g, 3, [32, 10], 70 if tier == 'quick' else 400)
+            oins = [x for x in oins if 32 in x or 10 in x]
+        for (ws, nl) in ((1, 0), (0, 1), (0, 0)):
+            for (v, st) in ((1, 0), (0, 0), (1, 1), (0, 1), (1, 2), (0, 2)):
+                pipeline.add_jobs(e, oins, verbose=bool(v), stream=st, ws=ws, nl=nl, tag='o%d%dv%ds%d_' % (ws, nl, v, st))
     res, work = prun.run(entries, 'C16', design_L=None, do_product=False, tlc_procs=4 if tier == 'quick' else 8, tlc_workers=4 if tier == 'quick' else 2, keep_lex=True)
     domain = {e.gid for e in entries}
     judge_traces(out, entries, res, {'lexer-lines', 'step', 'functor', 'report', 'recovery', 'position', 'verdict', 'tree', 'extra', 'threw', 'partial-line'}, domain, per_grammar=1)
@@ -554,19 +563,19 @@ def check_C16(tier, seed):
     for e in entries:
         byin = collections.defaultdict(dict)
         for t in e.traces:
-            byin[tuple(t['bytes'])][(t['verbose'], t['stream'])] = t
-        for b, d in byin.items():
+            byin[(tuple(t['bytes']), t['ws'], t['nl'])][(t['verbose'], t['stream'])] = t
+        for (b, ws_, nl_), d in byin.items():
             ref = d.get((1, 0))
             if ref is None:
                 continue
             for key, t in d.items():
                 ncmp += 1
                 if t['ok'] != ref['ok'] or json.dumps(t['tree']) != json.dumps(ref['tree']):
-                    out.violations.append({'summary': {'grammar': e.gid, 'input': bytes(b).decode('latin-1'), 'class': 'outcome depends on verbosity/stream',
+                    out.violations.append({'summary': {'grammar': e.gid, 'input': bytes(b).decode('latin-1'), 'class': 'outcome depends on verbosity/stream', 'skip_whitespace,skip_newline': [ws_, nl_],
                                                        'verbose,stream': key, 'ok': t['ok'], 'reference_ok': ref['ok']},
                                            'kind': 'parser', 'gname': e.g.name, 'mode': e.mode, 'gid': e.gid,
                                            'grammar': {'nts': e.g.nts, 'ts': e.g.ts, 'root': e.g.root, 'rules': e.g.rules, 'tprec': e.g.tprec, 'tassoc': e.g.tassoc},
-                                           'bytes': list(b), 'ws': 1, 'nl': 1, 'verbose': key[0], 'stream': key[1], 'buf': 0})
+                                           'bytes': list(b), 'ws': int(ws_), 'nl': int(nl_), 'verbose': key[0], 'stream': key[1], 'buf': 0})
             for v in (0, 1):
                 cap, ost = d.get((v, 0)), d.get((v, 2))
                 if cap and ost:
@@ -576,7 +585,7 @@ def check_C16(tier, seed):
                                                            'ostream': ost['stream_text'][:200], 'captured': text[:200]},
                                                'kind': 'parser', 'gname': e.g.name, 'mode': e.mode, 'gid': e.gid,
                                                'grammar': {'nts': e.g.nts, 'ts': e.g.ts, 'root': e.g.root, 'rules': e.g.rules, 'tprec': e.g.tprec, 'tassoc': e.g.tassoc},
-                                               'bytes': list(b), 'ws': 1, 'nl': 1, 'verbose': v, 'stream': 2, 'buf': 0})
+                                               'bytes': list(b), 'ws': int(ws_), 'nl': int(nl_), 'verbose': v, 'stream': 2, 'buf': 0})
             # the non-verbose lines appear unchanged and in order among the verbose ones
             cv, cn = d.get((1, 0)), d.get((0, 0))
             if cv and cn:
@@ -589,7 +598,7 @@ def check_C16(tier, seed):
                         out.violations.append({'summary': {'grammar': e.gid, 'input': bytes(b).decode('latin-1'), 'class': 'non-verbose line missing from the verbose stream', 'line': ln},
                                                'kind': 'parser', 'gname': e.g.name, 'mode': e.mode, 'gid': e.gid,
                                                'grammar': {'nts': e.g.nts, 'ts': e.g.ts, 'root': e.g.root, 'rules': e.g.rules, 'tprec': e.g.tprec, 'tassoc': e.g.tassoc},
-                                               'bytes': list(b), 'ws': 1, 'nl': 1, 'verbose': 1, 'stream': 0, 'buf': 0})
+                                               'bytes': list(b), 'ws': int(ws_), 'nl': int(nl_), 'verbose': 1, 'stream': 0, 'buf': 0})
                         break
                     i += 1
     out.violations = out.violations[:12]
@@ -921,6 +930,13 @@ def grammar_wf_check(tier, work):
     add('undeclared_term_last', ['S', 'A'], ['a', 'b'], 'S', base_rules + [('A', ['a', 'b', 'c'])], ['S', 'A'], ['a', 'b', 'c'])
     add('undeclared_only_in_unreachable_rule', ['S', 'A', 'U'], ['a', 'b'], 'S', base_rules + [('U', ['z'])], ['S', 'A', 'U'], ['a', 'b', 'z'])
     add('empty_nterm_name', ['S', ''], ['a', 'b'], 'S', [('S', ['a'])], ['S', ''], ['a', 'b'])
+    # names that are prefixes / extensions of declared names (symbol lookup must compare whole names)
+    add('undeclared_nterm_extends_declared', ['S', 'A'], ['a', 'b'], 'S', base_rules + [('S', ['AB', 'b'])], ['S', 'A', 'AB'], ['a', 'b'])
+    add('undeclared_nterm_prefix_of_declared', ['S', 'AB'], ['a', 'b'], 'S', [('S', ['AB', 'a']), ('S', ['A', 'b']), ('AB', ['b'])], ['S', 'AB', 'A'], ['a', 'b'])
+    add('undeclared_term_extends_declared', ['S', 'A'], ['a', 'b'], 'S', base_rules + [('A', ['ab', 'b'])], ['S', 'A'], ['a', 'b', 'ab'])
+    add('undeclared_term_prefix_of_declared', ['S', 'A'], ['ab', 'b'], 'S', [('S', ['A', 'ab']), ('S', ['b']), ('A', ['a', 'A']), ('A', [])], ['S', 'A'], ['ab', 'b', 'a'])
+    add('undeclared_lhs_extends_declared', ['S'], ['a', 'b'], 'S', [('S', ['a']), ('SS', ['b'])], ['S', 'SS'], ['a', 'b'])
+    add('ok_prefix_names_all_declared', ['S', 'SS'], ['a', 'ab'], 'S', [('S', ['SS', 'a']), ('SS', ['ab'])], ['S', 'SS'], ['a', 'ab'])
     items = []
     jobs = []
     inc = os.path.join(vlib.REPO, 'include')
@@ -932,7 +948,7 @@ def grammar_wf_check(tier, work):
         for n, var in ntv.items():
             body.append('nterm<int> %s("%s");' % (var, n))
         for t, var in tv.items():
-            body.append('char_term %s(\'%s\');' % (var, t))
+            body.append('char_term %s(\'%s\');' % (var, t) if len(t) == 1 else 'string_term %s("%s");' % (var, t))
         rl = ['%s(%s) >= [](auto&&...) { return 0; }' % (ntv[r['l']], ', '.join(ntv[x] if x in ntv else tv[x] for x in r['r'])) for r in v['rules']]
         pexpr = 'parser(%s, terms(%s), nterms(%s), rules(%s))' % (ntv[v['root']], ', '.join(tv[t] for t in v['terms']), ', '.join(ntv[n] for n in v['nterms']), ', '.join(rl))
         rt = decl + ['int main() { try {'] + ['  ' + b for b in body] + ['  auto* p = new auto(%s); (void)p; printf("CONSTRUCTED\\n"); return 0;' % pexpr,
@@ -1276,6 +1292,12 @@ def check_C06(tier, seed):
                                        'bytes': r['bytes'][:5000], 'ws': 1, 'nl': 1, 'verbose': 0, 'stream': 0, 'buf': r['buf']})
     # ---- cstring_buffer: the library's own fixed stacks (bounds hook), nullable symbols and error recovery
     ncstr, k2c, st_cs, tr_cs = cstring_stack_section(out, tier, 'C06', cat)
+    # ---- the fixed-capacity containers themselves: every transition of spec/Containers.tla replayed into the real objects
+    import containers
+    cprobs, cstats, crun = containers.run('C06cont')
+    for pb in cprobs[:4]:
+        out.violations.append({'summary': pb, 'kind': 'containers'})
+    st_cs += crun.distinct; tr_cs += crun.generated
     # ---- termination of the specification itself (liveness under weak fairness, no state constraint)
     small = [e for e in entries if e.mode in ('host0', 'host1')][:6]
     env, _ = pipeline.tlc_inputs(small, work, 'live', with_traces=False)
@@ -1322,6 +1344,7 @@ def check_C06(tier, seed):
     out.coverage['transitions'] += rl.generated + tr_cs
     out.coverage['cstring_buffer_parses_with_bounds_hook'] = ncstr
     out.coverage['k2_attributed'] = len(k2c)
+    out.coverage['stdex_containers_model_based'] = cstats
     out.assumptions = std_assumptions() + ['reads observed by harness checked_buffer (every operator*, iterator arithmetic and get_view)', 'library stacks/tables observed by the CTPG_VERIF cvector hook and ASan/UBSan',
                                            'a hang is detected by a per-parse watchdog (20 s plain, 120 s sanitizer build)']
     return out
@@ -1788,9 +1811,9 @@ def check_C14(tier, seed):
     out = Outcome()
     rng = random.Random(seed)
     cat = {g.name: g for g in catalogue()}
-    names = ['left_rec', 'paren_list', 'expr_strat', 'nullable_prefix', 'expr_amb', 'err_suite', 'err_stmt', 'err_block', 'two_lists']
+    names = ['left_rec', 'paren_list', 'expr_strat', 'nullable_prefix', 'expr_amb', 'err_suite', 'err_stmt', 'err_block', 'two_lists', 'err_pop_reduce']
     if tier != 'quick':
-        names += ['closure_memo', 'lr1_not_lalr', 'unit_chain', 'right_rec_empty', 'mutual_rec', 'dangling_else', 'err_nested', 'err_readme', 'err_first', 'err_last']
+        names += ['closure_memo', 'lr1_not_lalr', 'unit_chain', 'right_rec_empty', 'mutual_rec', 'dangling_else', 'err_nested', 'err_readme', 'err_first', 'err_last', 'err_pop2_reduce']
     entries = []
     for n in names:
         g = cat[n]
@@ -1876,6 +1899,8 @@ def check_C15(tier, seed):
         g = cat[n]
         e = pipeline.host_entry(g, 1 if g.has_error() else 0, gid=n + '@thr')
         ins = ws_inputs(g, 4 if len(g.ts) <= 2 else 3, [ord('?'), 32], 120 if tier == 'quick' else 500)      # accepted, failing, recovering calls mixed
+        t0 = ord(g.ts[0])
+        ins += [[0xe9], [t0, 0xe9], [t0, 0x80, t0], [0xff, t0], [t0, 32, 32, 32, 32, 32, 32, 32, 32, 32, 32, 32, ord('?')]]     # bytes >= 0x80 in messages, columns >= 10
         for s in gengram.sentences(g, rng, 6, max_len=40):
             ins.append(s)
         rng.shuffle(ins)
@@ -2065,6 +2090,13 @@ def replay(pid, path):
     if v.get('kind') == 'moveonly':
         print('re-run ./check C14 (compiles harness/moveonly.cpp against the working tree)')
         out.violations.append(v)
+        return out
+    if v.get('kind') == 'containers':
+        import containers
+        cprobs, cstats, crun = containers.run('replaycont')
+        print('container deviations:', json.dumps(cprobs[:3])[:800])
+        if cprobs:
+            out.violations.append(v)
         return out
     if v.get('kind') == 'caps':
         print('capacity witnesses are configurations of the check itself: re-run ./check C12')
